@@ -135,7 +135,15 @@ def _bound_method_snapshot_ok(fn, st, name, selfname) -> bool:
         return False
     i = next(k for k, b in enumerate(blk) if b is st)
     uses = [x for x in _own_nodes(fn) if isinstance(x, ast.Name) and x.id == name and isinstance(x.ctx, ast.Load)]
-    if not uses or not all(isinstance(getattr(u, "_parent", None), ast.Call) and u._parent.func is u for u in uses):
+    def _called(u):
+        par = getattr(u, "_parent", None)
+        if isinstance(par, ast.Call) and par.func is u:
+            return True
+        # `fp = self.fp; fp.write(a); fp.write(b)`: the alias is only the receiver of method calls
+        gp = getattr(par, "_parent", None)
+        return isinstance(par, ast.Attribute) and par.value is u and isinstance(gp, ast.Call) and gp.func is par
+
+    if not uses or not all(_called(u) for u in uses):
         return False
     last = i
     for u in uses:
